@@ -18,7 +18,8 @@ PROPERTY = "C11"
 LEVEL = "exploration"
 RULE = ("all initial configurations (EQUIPMENT_OFFLINE, ATTEMPT_ONLINE, HOST_OFFLINE, ONLINE x LOCAL/REMOTE) x probe answer "
         "(S1F2, S1F0, none) x event reports enabled or not, each with random histories (<= 25 events, thorough <= 80) over "
-        "{switch_online, switch_offline, switch_online_local, switch_online_remote, S1F15, S1F17, S1F3[1002]}; distinct by "
+        "{switch_online, switch_offline, switch_online_local, switch_online_remote, S1F15, S1F17, S1F3[1002], S1F17 and S1F3 "
+        "while the equipment's own S1F1 is outstanding (ATTEMPT ON-LINE)}; distinct by "
         "(configuration, event sequence); non-trivial when at least two model transitions were taken")
 ASSUMPTIONS = ["after a failed attempt-online the model accepts EQUIPMENT OFF-LINE or HOST OFF-LINE (E30 lets the equipment choose)",
                "S1F15 received while already OFF-LINE: S1F16(0) or S1F0", "an operator request with no transition in the E30 table may "
